@@ -289,7 +289,7 @@ fn main() {
     "strace faithfully records the syscalls of the single-threaded worker; a trace with unparsed relevant lines is rejected as inconclusive".into(),
     "orphan segment files are not a violation".into(),
   ];
-  let n = ctx.n(6, 120);
+  let n = ctx.n(8, 120);
   let exe = sandbox::self_exe();
   let (torn_all_below, torn_samples, max_images) = if quick { (48usize, 4usize, 1500usize) } else { (96usize, 12usize, 12000usize) };
   ctx.run_cases("hist", n, |rng: &mut Rng, l: &mut Local, scratch| {
@@ -302,7 +302,45 @@ fn main() {
       p_compact: 0.07,
       p_reopen: 0.05,
     };
-    let calls = hist::gen_history(rng, &cfg);
+    let mut calls = hist::gen_history(rng, &cfg);
+    // make sure most histories contain a compaction that has work to do (>= 2 committed
+    // segments): otherwise the compaction windows are never crash points
+    if l.case_idx % 4 != 3 {
+      let mut commits_with_adds = 0;
+      let mut pending_add = false;
+      let mut insert_at = None;
+      for (i, c) in calls.iter().enumerate() {
+        match c {
+          Call::Add(..) => pending_add = true,
+          Call::Commit(_) if pending_add => {
+            commits_with_adds += 1;
+            pending_add = false;
+            if commits_with_adds == 2 {
+              insert_at = Some(i + 1);
+              break;
+            }
+          }
+          Call::Reopen | Call::Rollback(_) => pending_add = false,
+          _ => {}
+        }
+      }
+      match insert_at {
+        Some(i) => calls.insert(i + rng.usize(calls.len() - i + 1).min(2), Call::Compact),
+        None => {
+          // append: add, commit, add, commit, compact on a fresh handle slot 0
+          let mut v = 1000u64;
+          let mut tail = vec![Call::Reopen, Call::Open(0)];
+          for _ in 0..2 {
+            v += 1;
+            let id = format!("d{}", rng.usize(cfg.ids));
+            tail.push(Call::Add(0, id.clone(), vcore::gen::simple_doc(rng, &id, &format!("v{v}"))));
+            tail.push(Call::Commit(0));
+          }
+          tail.push(Call::Compact);
+          calls.extend(tail);
+        }
+      }
+    }
     let hist_json: Vec<Value> = calls.iter().map(|c| c.to_json()).collect();
     let root = scratch.join("idx");
     let _ = std::fs::remove_dir_all(&root);
